@@ -5,12 +5,14 @@
      op    = (0 IDS) InsertChain | (1 id) InsertBlockWithoutSetHead | (2 id) SetCanonical
            | (3 n) SetHead | (4) Stop + NewBlockChain
    obs   one entry per op:
-     ( errclass CANON HEADS LOOKUPS CHAINEV REMOVED LOGS HEADEV )
+     ( errclass CANON HEADS LOOKUPS RESOLVE CHAINEV REMOVED LOGS HEADEV )
        CANON   = canon[0..maxnum+1], each (id) or ()
        HEADS   = (head_block head_header head_snap)
        LOOKUPS = per tx id of the case, ascending: (n) or ()
        CHAINEV / HEADEV = block ids; REMOVED / LOGS = one list of log ids per event
-   log id = (block x 4096 + tx) x 64 + index-in-block. *)
+   log id = (block x 4096 + tx) x 4096 + index-in-block.
+   RESOLVE (after LOOKUPS) = per tx id: (block number) as BlockChain.GetCanonicalTransaction
+   answers (the cached public path), or (). *)
 From GV Require Import Lib.Sx Chain.Tree Chain.Canonical.
 Local Open Scope N_scope.
 
@@ -18,7 +20,7 @@ Fixpoint tx_logs (bid : N) (txs : list (N * N)) (idx : N) : list N :=
   match txs with
   | [] => []
   | (tx, nl) :: r =>
-    map (fun j => (bid * 4096 + tx) * 64 + (idx + N.of_nat j)) (seq 0 (N.to_nat nl))
+    map (fun j => (bid * 4096 + tx) * 4096 + (idx + N.of_nat j)) (seq 0 (N.to_nat nl))
     ++ tx_logs bid r (idx + nl)
   end.
 
@@ -64,12 +66,14 @@ Fixpoint nodup_sorted_insert (x : N) (l : list N) : list N :=
   | y :: r => if x <? y then x :: l else if x =? y then l else y :: nodup_sorted_insert x r
   end.
 
-Definition obs_of (maxn : N) (txids : list N) (o : outcome) : sx :=
+Definition obs_of (T : tree) (maxn : N) (txids : list N) (o : outcome) : sx :=
   let '(st, evs, e) := o in
   SL [ SI (err_code e);
        SL (map (fun k => sopt sn (canon st (N.of_nat k))) (seq 0 (N.to_nat maxn + 2)));
        SL [sn (hd_block st); sn (hd_header st); sn (hd_snap st)];
        SL (map (fun tx => sopt sn (lookup st tx)) txids);
+       SL (map (fun tx => match resolve_tx T st tx with
+                          | Some (h, n) => SL [sn h; sn n] | None => SL [] end) txids);
        SL (flat_map (fun ev => match ev with EvChain h => [sn h] | _ => [] end) evs);
        SL (flat_map (fun ev => match ev with EvRemoved l => [SL (map sn l)] | _ => [] end) evs);
        SL (flat_map (fun ev => match ev with EvLogs l => [SL (map sn l)] | _ => [] end) evs);
@@ -79,7 +83,7 @@ Fixpoint run_ops (T : tree) (fuel : nat) (maxn : N) (txids : list N) (st : db) (
   match ops with
   | [] => []
   | o :: r => let out := step T fuel st o in
-              obs_of maxn txids out :: run_ops T fuel maxn txids (fst (fst out)) r
+              obs_of T maxn txids out :: run_ops T fuel maxn txids (fst (fst out)) r
   end.
 
 Definition C38_run (c : sx) : sx :=
